@@ -40,6 +40,7 @@ var structCat = []structT{
 	{0, []sty{{B: "int"}, {B: "string"}}, []int{0}},
 	{1, []sty{{B: "int"}, {B: "string"}}, nil},
 	{2, []sty{{B: "float64"}}, []int{0, 1}},
+	{3, []sty{{B: "int"}}, []int{0, 8}},
 }
 
 // interface catalogue: I0 is the literal `interface{}`; the others are declared `type I<i> interface{…}`
@@ -48,7 +49,7 @@ type ifaceT struct {
 	Methods []int
 }
 
-var ifaceCat = []ifaceT{{0, nil}, {1, []int{0}}, {2, []int{0, 1}}}
+var ifaceCat = []ifaceT{{0, nil}, {1, []int{0}}, {2, []int{0, 1}}, {3, []int{0, 8}}}
 
 // sty: simple (element-level) type: a basic type or a named basic type
 type sty struct {
@@ -68,6 +69,14 @@ func (s sty) src() string {
 		return fmt.Sprintf("N%d", n.ID)
 	}
 	return s.B
+}
+
+// mname: method j is exported (M<j>) when j < 8 and not exported (m<j>) otherwise (Lean: methodExported)
+func mname(j int) string {
+	if j < 8 {
+		return fmt.Sprintf("M%d", j)
+	}
+	return fmt.Sprintf("m%d", j)
 }
 
 func ints(xs []int) string {
@@ -230,7 +239,7 @@ func prelude() string {
 	for _, n := range namedCat {
 		fmt.Fprintf(&b, "type N%d %s\n", n.ID, n.Under)
 		for _, m := range n.Methods {
-			fmt.Fprintf(&b, "func (N%d) M%d() {}\n", n.ID, m)
+			fmt.Fprintf(&b, "func (N%d) %s() {}\n", n.ID, mname(m))
 		}
 	}
 	for _, s := range structCat {
@@ -240,13 +249,13 @@ func prelude() string {
 		}
 		b.WriteString("}\n")
 		for _, m := range s.Methods {
-			fmt.Fprintf(&b, "func (S%d) M%d() {}\n", s.ID, m)
+			fmt.Fprintf(&b, "func (S%d) %s() {}\n", s.ID, mname(m))
 		}
 	}
 	for _, i := range ifaceCat[1:] {
 		fmt.Fprintf(&b, "type I%d interface {\n", i.ID)
 		for _, m := range i.Methods {
-			fmt.Fprintf(&b, "\tM%d()\n", m)
+			fmt.Fprintf(&b, "\t%s()\n", mname(m))
 		}
 		b.WriteString("}\n")
 	}
@@ -256,7 +265,7 @@ func prelude() string {
 // ---- expressions ----
 
 type expr struct {
-	K    string // var lit nil un recv bin cmp shift call conv index
+	K    string // var lit nil un recv bin cmp shift call conv index assert
 	I    int    // var index (absolute position in the environment), call: function index
 	Lit  string // lit kind: int float rune string bool
 	V    int64  // lit value (int, rune; float: integral part; bool: 0/1; string: ignored)
@@ -264,7 +273,7 @@ type expr struct {
 	Op   string
 	A, B *expr
 	Args []*expr
-	T    *ty // conv target
+	T    *ty // conv target, asserted type
 }
 
 var unGo = map[string]string{"pos": "+", "neg": "-", "bitnot": "^", "not": "!"}
@@ -329,6 +338,8 @@ func (e *expr) src() string {
 		return t + "(" + e.A.src() + ")"
 	case "index":
 		return e.A.src() + "[" + e.B.src() + "]"
+	case "assert":
+		return e.A.src() + ".(" + e.T.src() + ")"
 	}
 	return "?"
 }
@@ -382,6 +393,8 @@ func (e *expr) sexp() string {
 		return "(conv " + e.T.sexp() + " " + e.A.sexp() + ")"
 	case "index":
 		return "(index " + e.A.sexp() + " " + e.B.sexp() + ")"
+	case "assert":
+		return "(assert " + e.T.sexp() + " " + e.A.sexp() + ")"
 	}
 	return "?"
 }
@@ -408,8 +421,8 @@ func (e *expr) clone() *expr {
 // ---- statements ----
 
 type stmt struct {
-	K    string // decl declz define assign opassign incdec send call if for ret
-	T    *ty    // decl, declz
+	K    string // decl declz define defineok assign opassign incdec send call if for ret
+	T    *ty    // decl, declz; defineok: asserted type
 	I    int    // assign/opassign/incdec: variable index; call: function index
 	Op   string // opassign: bin or shift operator; incdec: inc dec
 	E    *expr  // decl define assign opassign: value; if for: condition; send: value
@@ -482,6 +495,9 @@ func renderBlock(b *strings.Builder, blk []*stmt, nv int, ind string) {
 		case "define":
 			fmt.Fprintf(b, "%sv%d := %s\n%s_ = v%d\n", ind, nv, s.E.top(), ind, nv)
 			nv++
+		case "defineok":
+			fmt.Fprintf(b, "%sv%d, v%d := %s.(%s)\n%s_, _ = v%d, v%d\n", ind, nv, nv+1, s.E.src(), s.T.src(), ind, nv, nv+1)
+			nv += 2
 		case "assign":
 			fmt.Fprintf(b, "%sv%d = %s\n", ind, s.I, s.E.top())
 		case "opassign":
@@ -546,6 +562,8 @@ func (s *stmt) sexp() string {
 		return "(declz " + s.T.sexp() + ")"
 	case "define":
 		return "(define " + s.E.sexp() + ")"
+	case "defineok":
+		return "(defineok " + s.T.sexp() + " " + s.E.sexp() + ")"
 	case "assign":
 		return fmt.Sprintf("(assign %d %s)", s.I, s.E.sexp())
 	case "opassign":
